@@ -1169,9 +1169,25 @@ protected:
                 }
                 if (!remaining.empty())
                 {
-                  onUpgradedData(sid,
-                    reinterpret_cast<const std::uint8_t*>(remaining.data()),
-                    remaining.size());
+                  // The upgrade response is already on the wire: this request
+                  // has had its one response. An exception from the upgraded
+                  // protocol's handler must not reach the catch below, which
+                  // would send a second (500) response for the same request
+                  // into the upgraded stream. End the connection instead.
+                  try
+                  {
+                    onUpgradedData(sid,
+                      reinterpret_cast<const std::uint8_t*>(remaining.data()),
+                      remaining.size());
+                  }
+                  catch (...)
+                  {
+                    iora::core::Logger::error(
+                      "HttpServer: upgraded-data handler threw while draining "
+                      "buffered bytes after an upgrade (session " +
+                      std::to_string(sid) + "); closing the connection");
+                    closeSession(sid);
+                  }
                 }
               }
               return; // Skip normal route dispatch
